@@ -962,6 +962,9 @@ class AdapterRegistry(BaseAdapterRegistry):
                 r._addSubregistry(self)
 
         super()._setBases(bases)
+        # The resolution orders of our sub-registries include ours.
+        for sub in tuple(self._v_subregistries.keys()):
+            sub._setBases(sub.__bases__)
 
     def changed(self, originally_changed):
         super().changed(originally_changed)
@@ -971,7 +974,14 @@ class AdapterRegistry(BaseAdapterRegistry):
 
 
 class VerifyingAdapterLookup(AdapterLookupBase, VerifyingBase):
-    pass
+
+    def changed(self, originally_changed):
+        registry = self._registry
+        if originally_changed is not registry:
+            # Called from ``_verify``: a registry above us changed, possibly
+            # its bases, so our resolution order may be out of date too.
+            registry.ro = ro.ro(registry)
+        super().changed(originally_changed)
 
 
 @implementer(IAdapterRegistry)
